@@ -10,7 +10,7 @@ class Unsupported(Exception):
     """The handler uses a construct the extractor does not model (reported as ANALYSIS-LIMIT, never a violation)."""
 
 class Path:
-    __slots__ = ('env', 'regs', 'mw', 'guards', 'epoch', 'events', 'ncont', 'ret', 'ncall', 'done')
+    __slots__ = ('env', 'regs', 'mw', 'guards', 'epoch', 'events', 'ncont', 'ret', 'ncall', 'done', 'paged')
     def __init__(self):
         self.env = {}
         self.regs = {}
@@ -22,12 +22,13 @@ class Path:
         self.ncall = 0
         self.ret = None
         self.done = False
+        self.paged = 0      # 1000 once a port write that can page memory has happened: later reads may see another bank
 
     def fork(self):
         p = Path()
         p.env = dict(self.env); p.regs = dict(self.regs); p.mw = list(self.mw)
         p.guards = list(self.guards); p.epoch = self.epoch; p.events = list(self.events)
-        p.ncont = self.ncont; p.ncall = self.ncall; p.ret = self.ret; p.done = self.done
+        p.ncont = self.ncont; p.ncall = self.ncall; p.ret = self.ret; p.done = self.done; p.paged = self.paged
         return p
 
     def reg(self, k):
@@ -178,7 +179,7 @@ class PyExtractor(Base):
                     base = p.reg(k[1])
                 chain = chain[1:]
             elif isinstance(b, ast.Name) and b.id == self.memname and b.id not in p.env:
-                base = ('mem', self.ev(p, chain[0]), p.epoch)
+                base = ('mem', self.ev(p, chain[0]), p.epoch + p.paged)
                 chain = chain[1:]
             else:
                 base = self.ev(p, b)
@@ -239,6 +240,8 @@ class PyExtractor(Base):
             args = tuple(args[1:]) if args and args[0] == ('sym', '$registers') else tuple(args)
             p.ncall += 1
             p.events.append(('tracer', target[1], args, tuple(p.guards), line))
+            if target[1] == 'out_tracer':
+                p.paged = 1000
             return ('call', target[1], args, p.ncall)
         raise Unsupported('call ' + fname)
 
@@ -450,14 +453,14 @@ class CExtractor(Base):
                     raise Unsupported('non-constant args index')
                 return C(self.args[kk[1]])
             if bs == ('sym', '$mem'):
-                return ('mem', self.ev(p, inner[1]), p.epoch)
+                return ('mem', self.ev(p, inner[1]), p.epoch + p.paged)
             i = self.ev(p, inner[1])
             if bs[0] == 'idx' and bs[1] == ('sym', '$mem128'):
                 # self->mem128[a / 0x4000][a % 0x4000]
                 a = _bank_addr(bs[2], i)
                 if a is not None:
-                    return ('mem', a, p.epoch)
-                return ('mem', ('bank', bs[2], i), p.epoch)
+                    return ('mem', a, p.epoch + p.paged)
+                return ('mem', ('bank', bs[2], i), p.epoch + p.paged)
             return mk_idx(bs, i)
         if k == 'MemberExpr':
             nm = n['name']
@@ -567,6 +570,7 @@ class CExtractor(Base):
         if callee[0] == 'sym' and callee[1] == 'fn:out7ffd':
             v = self.ev(p, args[1])
             p.events.append(('page', v, tuple(p.guards), line))
+            p.paged = 1000
             return C(0)
         if callee == ('sym', 'read_port'):
             port = self.ev(p, args[1])
@@ -586,6 +590,8 @@ class CExtractor(Base):
                 if target[0] == 'sym' and target[1].endswith('_tracer') and a[0] == 'pyargs':
                     p.ncall += 1
                     p.events.append(('tracer', target[1], tuple(a[1:]), tuple(p.guards), line))
+                    if target[1] == 'out_tracer':
+                        p.paged = 1000
                     return ('pyobj', ('call', target[1], tuple(a[1:]), p.ncall))
                 raise Unsupported('PyObject_Call of ' + repr(target))
             if fn in ('Py_XDECREF', 'Py_DECREF', 'Py_INCREF', 'PyErr_CheckSignals', '_Py_DECREF', '_Py_XDECREF', 'Py_DecRef'):
